@@ -21,13 +21,26 @@ Quick2Combos == {<<"default", "degree">>, <<"default", "degC">>, <<"default", "k
                  <<"custom", "mile">>, <<"customcgs", "foo">>, <<"customrm", "degree">>}
 RepPaths == {"pickle4", "deepcopy", "dot_copy", "str_roundtrip", "json_registry", "savetxt2", "string_roundtrip", "unit_copy_deep"}
 BothOrders == {"of", "rf"}
-PlainPre == {<<"idlast", "warm">>}
-OtherPre == {<<"idfirst", "warm">>, <<"idfirst", "cold">>, <<"idlast", "cold">>}
+PlainPre == {<<"idlast", "warm", "insync">>}
+OtherPre == {<<"idfirst", "warm", "insync">>, <<"idfirst", "cold", "insync">>, <<"idlast", "cold", "insync">>}
 AllPre == PlainPre \cup OtherPre
+\* objects out of sync with their registry (re-valued after creation / explicit values under a registered name), memo warm and cold
+StalePre == {<<"idlast", m, s>> : m \in {"warm", "cold"}, s \in {"revalued", "shadow"}}
+StaleCombos == {<<"custom", "foo">>, <<"custom", "kpfoo">>, <<"custom", "ofoo">>, <<"custom", "foo/pfoo">>, <<"default", "km/hr">>}
+StalePaths == {"pickle4", "copy_copy", "dot_copy", "deepcopy", "unit_copy_deep"}
+ArrayUnit == {"array", "unit"}
+\* quick1: protocols 2 and 3 and the two historical savetxt forms are left to the thorough tier (the savetxt forms are
+\* members of the call-form instance MC_C11_sv)
+Quick1Paths == AllPaths \ {"pickle2", "pickle3", "savetxt", "savetxt2"}
+OrigFirst == {"of"}
+\* the savetxt / loadtxt call forms
+SvCombos == {<<"default", "km/hr">>, <<"default", "degC">>}
+SvFullCombos == {ru \in AllCombos : ru[1] = "default"}
+ArrayOnly == {"array"}
 PreCombos == {<<"customrm", "foo">>, <<"custom", "foo">>, <<"custom", "kpfoo">>, <<"custom", "mile">>, <<"customcgs", "km/hr">>, <<"default", "degC">>}
 PrePaths == {"pickle4", "pickle_nested", "copy_copy", "dot_copy", "deepcopy", "unit_copy_deep", "json_registry", "str_roundtrip"}
 
-Case == [tag |-> "CASE", cls |-> obj.cls, reg |-> obj.reg, unit |-> obj.unit, pre |-> obj.pre, memo |-> obj.memo, chain |-> chain, order |-> IF order = "" THEN "of" ELSE order,
+Case == [tag |-> "CASE", cls |-> obj.cls, reg |-> obj.reg, unit |-> obj.unit, pre |-> obj.pre, memo |-> obj.memo, sync |-> obj.sync, chain |-> chain, order |-> IF order = "" THEN "of" ELSE order,
          fups |-> [i \in DOMAIN fups |-> fups[i].f], alive |-> st.alive,
          model |-> [i \in DOMAIN fups |-> IF fups[i].rest /\ fups[i].orig THEN 0 ELSE 1],
          restorefails |-> ModelRestoreFails]
